@@ -303,7 +303,11 @@ func mkVals(r *rand.Rand, prop, enc string, n int) [][]byte {
 		return valsSmallStrings(r, n)
 	}
 	base := int64(r.Intn(1000)) - 500
-	switch r.Intn(4) {
+	switch r.Intn(6) {
+	case 4:
+		return valsRecurring(r, enc, n, 2+r.Intn(3), base)
+	case 5:
+		return valsRecurring(r, enc, n, 2+r.Intn(30), base)
 	case 0:
 		return valsFromPattern(enc, n, 0, base) // all distinct
 	case 1:
@@ -348,6 +352,8 @@ func genLookup(t *Tracer, m *Meta, prop, tier string, seed int64) {
 					}
 					if enc == "s16" && r.Intn(3) != 0 {
 						vals = valsSmallStrings(r, n)
+					} else if n > 2 && r.Intn(2) == 0 {
+						vals = valsRecurring(r, enc, n, 2+r.Intn(2), 0)
 					}
 				}
 				c := &TrieCase{Keys: keys, Enc: enc, Vals: vals, Opt4: o4}
